@@ -44,6 +44,7 @@ type c17Pass struct {
 	State map[string]*nodestate.NodeState
 	Orders [][]string
 	Before map[string]vk.Node
+	T      int64
 }
 type c17Out struct {
 	Passes []c17Pass
@@ -141,6 +142,7 @@ func c17Run(in c17In) c17Out {
 			pass.Before[h] = *n
 		}
 		w.Mu.Unlock()
+		pass.T = time.Now().UnixNano() - vEpoch
 		w.ResetTranscript()
 		d.silent = false
 		app.repairOfflineMode(state, master)
@@ -236,7 +238,7 @@ func c17Cases(in c17In, out c17Out) []string {
 		for _, o := range p.Orders {
 			ol = append(ol, hostsGal(o))
 		}
-		cs = append(cs, vk.T(cfgGal(out.Cfg), env, vk.L(ol), transcriptGal(p.Trans, vEpoch, "")))
+		cs = append(cs, vk.T(cfgGal(out.Cfg), env, vk.L(ol), transcriptGal(p.Trans, vEpoch, ""), vk.Z(p.T)))
 	}
 	return cs
 }
